@@ -405,6 +405,7 @@ void QXmppPubSubEventBase::serializeExtensions(QXmlStreamWriter *writer, QXmpp::
                 writer->writeAttribute(QSL65("uri"), d->redirectUri);
                 writer->writeEndElement();
             }
+            break;
         case Items:
             // serialize items
             serializeItems(writer);
